@@ -6,7 +6,7 @@ from ..common import Snapshot, eqstar, plain, rng_for
 from .c05 import env_of
 
 PLAN = {
-    "quick": {"shards": 8, "cases": 200, "min_nontrivial": 700, "budget_s": 240},
+    "quick": {"shards": 8, "cases": 400, "min_nontrivial": 1500, "budget_s": 300},
     "thorough": {"shards": 16, "cases": 3500, "min_nontrivial": 20000, "budget_s": 1500},
 }
 RULE = ("schemas with mutable defaults on typed lists/dicts (scalars, dict items for lists of schemas), nested schemas, "
@@ -16,7 +16,7 @@ RULE = ("schemas with mutable defaults on typed lists/dicts (scalars, dict items
         "periodically (3) a twin built *after* the mutations against the declared defaults; a second scenario reuses "
         "one sub-schema / config type as the item type of two lists in two configurations; non-trivial = >= 3 "
         "operations applied with >= 1 in-place mutation or dynamic field; distinct = distinct (schema, history)")
-REQUIRED = ("twin_before_checks", "twin_after_checks", "fingerprint_checks", "shared_item_checks", "ops_applied",
+REQUIRED = ("serialisations_applied", "twin_before_checks", "twin_after_checks", "fingerprint_checks", "shared_item_checks", "ops_applied",
             "inplace_mutations", "dynamic_fields_added")
 ASSUMPTIONS = ["deep mutation inside an *untyped* default (ListField(default=[[1]]), Field(default=[...])) is out of "
                "scope: the property quantifies over mutable defaults on typed fields"]
@@ -194,6 +194,8 @@ def run(case, ctx, res):
         if out.get("inplace") and out["raised"] is None:
             inplace += 1
             res.count("inplace_mutations")
+        if out["kind"] == "serialize":
+            res.count("serialisations_applied")
         if out["kind"] == "set-dynamic" and out["raised"] is None:
             dyn += 1
             res.count("dynamic_fields_added")
